@@ -100,13 +100,15 @@ claim('C13',
       'ast typing of literal contraction index lists + guard reaching-definitions with interval analysis',
       'DESIGN.md 4 (V1, F), 5 C13')
 claim('C15',
-      'Decides ONE clause: "a batch is converted element-wise whatever mixture of generic and degenerate rotations it contains" - '
-      'by abstract interpretation of the Euler-angle extraction over the index-space lattice {Full, Masked(m), Scalar, Unknown}: '
-      'every elementwise operation and every masked store stays in one index space (MS1). Angle recovery at the gimbal points '
-      '(the arccos sign loss), the SU(2)->SO(3) homomorphism, Wigner-d and Clebsch-Gordan relations are value-level and NOT decided.',
-      'Narrow claim. Trusted: which parameters are full-length batch arrays (table MS1_FUNCS).',
-      'structured forward abstract interpretation over a boolean-mask index-space lattice',
-      'DESIGN.md 4 (MS1), 5 C15')
+      'Decides three clauses of the Euler-angle extraction: a batch is converted element-wise whatever mixture of generic and '
+      'degenerate rotations it contains - abstract interpretation over the index-space lattice {Full, Masked(m), Scalar, Unknown} '
+      '(MS1); a full-circle angle (alpha, gamma, alpha+-gamma) is never recovered from arccos of one entry alone - it needs arctan2 of '
+      'two independent entries or a sign test on a second entry in the same branch (AG1, dataflow closure per branch); every '
+      'arccos argument is clipped, so exactly degenerate and axis-aligned rotations do not produce NaN (F3). Numerical accuracy near '
+      'the gimbal points, the SU(2)->SO(3) homomorphism, Wigner-d and Clebsch-Gordan relations are value-level and NOT decided.',
+      'Trusted: which parameters are full-length batch arrays and which names are matrix entries (signature of _so3_to_angle_hf0).',
+      'structured forward abstract interpretation over a mask index-space lattice; branch-local def-use closure of inverse-trig results',
+      'DESIGN.md 4 (MS1, AG1), 5 C15')
 claim('C16',
       'Decides the layout clauses: the basis stacking order, gellmann_matrix arms, analysis concat order and synthesis slices / '
       'off-diagonal placement of numqi.gellmann agree with each other and with the documented order in both backends (G1); every '
